@@ -75,7 +75,12 @@ def crash(job, rng, home):
     oseed, eseed = rng.randrange(1 << 30), rng.randrange(1 << 30)
     twin, n_events, n_iters = _twin(w, oseed, eseed, home, mode)
     outcome = gen.make_outcome(w, random.Random(oseed), mode)
-    if rng.random() < 0.5:
+    r = rng.random()
+    if r < 0.3:
+        # right after the k-th TaskPool.remove: its early commit has put the final task_states row in the
+        # database while the task_pool / task_prerequisites tables still show the state of the last iteration
+        kill = {"kind": "event", "name": "remove", "n": rng.randint(1, max(1, len(twin["launched"])))}
+    elif r < 0.65:
         kill = {"kind": "emit", "n": rng.randint(8, max(9, n_events - 5))}
     else:
         kill = {"kind": "stmt", "n": rng.randint(1, max(2, n_events // 3))}
